@@ -4,20 +4,13 @@
    are read from the source text (Gen/MarkingFacts.v: src_nv_changed_keys).  For any such call C05's
    model says: the result's version time is strictly later after serialization, and every property
    other than `modified` and the named ones is what it was.  (Model/Markings.v is deliberately not
-   imported here: the two models share several identifiers.) *)
+   imported here: the two models share several identifiers.)  This file contains nothing but the use of
+   r-c15-c05's lemmas nv_strict_lemma / nv_exact_lemma: if it stops compiling, their statements moved. *)
 From Coq Require Import String ZArith List Bool.
 From V Require Import Base.UString Base.Json Model.Timestamp Model.Versioning
-  Proofs.VersioningFacts Proofs.VersioningProofs Gen.MarkingFacts.
+  Proofs.VersioningFacts Proofs.VersioningProofs Gen.MarkingFacts Proofs.MarkingsSrc.
 Import ListNotations.
 Open Scope list_scope.
-
-Definition marking_keys : list ustring := [u "object_marking_refs"; u "granular_markings"].
-
-Lemma src_changes_only_marking_keys : forall k, In k src_nv_changed_keys -> In k marking_keys.
-Proof.
-  intros k H. unfold src_nv_changed_keys in H. unfold marking_keys.
-  repeat (destruct H as [H|H]; [subst k; simpl; tauto|]). destruct H.
-Qed.
 
 Lemma requested_untouched : forall ch d k, ~ In k (keys ch) -> requested ch d k = pget k d.
 Proof. intros ch d k H. unfold requested. rewrite (plookup_not_in k ch H). reflexivity. Qed.
